@@ -152,3 +152,12 @@ Theorem C17_no_crash_sys : forall c b ls, wf_cfg c -> Forall wf_label ls ->
   panicked (run c (init_sys b) ls) = false /\ SysInv (run c (init_sys b) ls).
 Proof. exact no_crash_sys. Qed.
 Print Assumptions C17_no_crash_sys.
+
+(* ---- the two side conditions of Inv / wf_seg are needed ---- *)
+Theorem C17_small_mtu_refuted : tcb_segments (tcb_open 1000 80 0 49) = Panic 5.
+Proof. exact small_mtu_panics. Qed.
+Print Assumptions C17_small_mtu_refuted.
+
+Theorem C17_oversized_text_refuted : segment_arrives idle_tcb oversized_seg = Panic 2.
+Proof. exact oversized_text_panics. Qed.
+Print Assumptions C17_oversized_text_refuted.
